@@ -54,9 +54,16 @@ def rebaseDir (docPath : String) : String :=
   let d := dir docPath
   if d = "." then "" else if hasSuffix d "/" then d else d ++ "/"
 
+/-- the path of the base document matches up to a path boundary:
+`strings.HasPrefix(u.Path, docPath) && (len(u.Path) == len(docPath) || strings.HasSuffix(docPath, "/") || u.Path[len(docPath)] == '/')` -/
+def matchesDoc (uPath docPath : String) : Bool :=
+  hasPrefix uPath docPath &&
+    (uPath.toList.length == docPath.toList.length || hasSuffix docPath "/" ||
+      (uPath.toList.drop docPath.toList.length).head? == some '/')
+
 /-- `newBase.Path` in `rebase`. -/
 def rebasePath (uPath docPath : String) : String :=
-  if hasPrefix uPath docPath then trimPrefix uPath docPath else trimPrefix uPath (rebaseDir docPath)
+  if matchesDoc uPath docPath then trimPrefix uPath docPath else trimPrefix uPath (rebaseDir docPath)
 
 /-- `rebase(ref, v, notEqual)`; the result `Ref` is `MustCreateRef(newBase.String())`. -/
 def rebase (ref : Ref) (v : URL) (notEqual : Bool) : Ref × Bool :=
